@@ -70,40 +70,114 @@ def rule_disambig(ctx: RuleContext, p: Program, rid: str) -> None:
     un, ad = g.literal_alternatives('UNARY_OP'), g.literal_alternatives('ADD_OP')
     collide = bool(un and ad and set(un) & set(ad))
     f = p.func('models.custom', '_disambiguate_values')
-    loops = [l for l in walk_no_nested(f.node) if isinstance(l, ast.For)]
-    if len(loops) != 1:
-        raise AnalysisError('DISAMBIG: loop of _disambiguate_values not found')
-    lp = loops[0]
-    val = norm(lp.target)
-    outer = [s for s in lp.body if isinstance(s, ast.If)]
-    problems = []
     if not collide:
         ctx.ok(rid, 'grammar: UNARY_OP / ADD_OP', 'no shared literal: juxtaposition is unambiguous', nontrivial=False)
         return
-    if len(outer) != 1:
-        problems.append('expected one guard on the previous value')
-    else:
-        t = outer[0].test
-        prev_names = {norm(a.targets[0]) for a in lp.body if isinstance(a, ast.Assign) and norm(a.value) == val}
-        ok_guard = isinstance(t, ast.Call) and norm(t.func) == 'isinstance' and norm(t.args[0]) in prev_names and norm(t.args[1]) == 'NumberExpr'
-        if not ok_guard:
-            problems.append(f'the guard on the previous value is `{norm(t)}`; it must be exactly isinstance(<previous>, NumberExpr): any '
-                            f'extra condition leaves a previous number expression (e.g. one ending in ")") unprotected')
-        kinds = {norm(c.args[1]) for c in ast.walk(outer[0]) if isinstance(c, ast.Call) and norm(c.func) == 'isinstance' and norm(c.args[0]) == val}
-        if kinds != {'Amount', 'NumberExpr'}:
-            problems.append(f'the current value is inspected as {sorted(kinds)}, expected Amount and NumberExpr')
-        wraps = [c for c in ast.walk(outer[0]) if isinstance(c, ast.Call) and isinstance(c.func, ast.Attribute) and c.func.attr == 'wrap_with_parenthesis']
-        un_test = [c for c in ast.walk(outer[0]) if isinstance(c, ast.Call) and norm(c.func) == 'isinstance' and norm(c.args[1]) == 'NumberUnaryExpr'
-                   and 'raw_operands[0].raw_operands[0]' in norm(c.args[0])]
-        if len(wraps) != 1 or len(un_test) != 1:
-            problems.append('does not wrap exactly the numbers whose first atom is a unary expression')
-    ys = [y for y in ast.walk(lp) if isinstance(y, ast.Yield)]
-    if len(ys) != 1 or norm(ys[0].value) != val or any(isinstance(x, (ast.Continue, ast.Break)) for x in ast.walk(lp)):
-        problems.append('does not yield every value exactly once')
-    if not any(isinstance(a, ast.Assign) and norm(a.value) == val and lp.body.index(a) == len(lp.body) - 1 for a in lp.body if isinstance(a, ast.Assign)):
-        problems.append('the previous value is not updated last in every iteration')
-    ctx.check(not problems, rid, 'models.custom:_disambiguate_values', '; '.join(problems) or 'ok', '; '.join(problems), f.where,
-              note=f'UNARY_OP {un} collide with ADD_OP {ad}: guard = isinstance(prev, NumberExpr)')
+    problem, cases = _disambig_sem(p, f)
+    ctx.check(not problem, rid, 'models.custom:_disambiguate_values', problem or 'ok',
+              f'_disambiguate_values, interpreted over every sequence of up to 3 custom values (string, signed / unsigned number expression, '
+              f'amount with a signed / unsigned number): {problem}', f.where,
+              note=f'UNARY_OP {un} collide with ADD_OP {ad}; {cases} value sequences: wraps exactly the signed numbers that follow a number expression')
+
+
+def _disambig_sem(p: Program, f: Any) -> tuple[str, int]:
+    import itertools
+    from . import possem
+    from .tokenstore import TS
+    ts = TS(p)
+    m = p.module('models.custom')
+
+    def cls_of(name: str) -> Any:
+        sy = p.resolve_expr(m, ast.Name(id=name, ctx=ast.Load()))
+        if sy is not None and hasattr(sy, 'is_subclass_of'):
+            return sy
+        cands = [c for mod in p.modules.values() if mod.name.startswith('autobean_refactor.models.') and '.generated' not in mod.name
+                 for c in mod.classes if c.name == name]
+        if not cands:
+            cands = [c for mod in p.modules.values() if mod.name.startswith('autobean_refactor.models.') for c in mod.classes if c.name == name]
+        return cands[0] if len(cands) == 1 else None
+
+    class Interp(possem.PosInterp):
+        tag = 'DISAMBIG'
+
+        def __init__(self) -> None:
+            super().__init__(ts, [], module=m)
+            self.wrapped: list = []
+
+        def instance_of(self, v: Any, cls_expr: Any, env: dict) -> bool:          # type: ignore[override]
+            if not isinstance(v, possem.Obj):
+                return False
+            target = p.resolve_expr(m, cls_expr)
+            mine = cls_of(v.cls)
+            if target is None or mine is None or not hasattr(mine, 'is_subclass_of'):
+                raise self.err(cls_expr, 'isinstance against an unknown class')
+            return mine.is_subclass_of(target)
+
+        def expr(self, e: Any, env: dict) -> Any:                 # type: ignore[override]
+            if isinstance(e, ast.Call) and isinstance(e.func, ast.Name) and e.func.id == 'isinstance' and e.func.id not in env and len(e.args) == 2:
+                v = self.expr(e.args[0], env)
+                alts: list = []
+
+                def fl(x: ast.AST) -> None:
+                    if isinstance(x, ast.BinOp) and isinstance(x.op, ast.BitOr):
+                        fl(x.left)
+                        fl(x.right)
+                    elif isinstance(x, ast.Tuple):
+                        for y in x.elts:
+                            fl(y)
+                    else:
+                        alts.append(x)
+                fl(e.args[1])
+                return any(self.instance_of(v, a_, env) for a_ in alts)
+            if isinstance(e, ast.Call) and isinstance(e.func, ast.Attribute) and e.func.attr == 'wrap_with_parenthesis':
+                v = self.expr(e.func.value, env)
+                self.wrapped.append(v)
+                if isinstance(v, possem.Obj) and v.cls == 'NumberExpr':
+                    v.f['raw_number_add_expr'] = mk_add(False)       # now starts with a parenthesis
+                    v.f['first_token'] = possem.Obj('LeftParen', {'raw_text': '('}, '(')
+                    v.f['last_token'] = possem.Obj('RightParen', {'raw_text': ')'}, ')')
+                return None
+            return super().expr(e, env)
+
+    def mk_add(signed: bool) -> Any:
+        atom = possem.Obj('NumberUnaryExpr' if signed else 'Number', {}, 'atom')
+        mul = possem.Obj('NumberMulExpr', {'raw_operands': (atom,)}, 'mul')
+        return possem.Obj('NumberAddExpr', {'raw_operands': (mul,)}, 'add')
+
+    def mk(kind: str, i: int) -> Any:
+        def ends(signed: bool) -> dict:
+            return {'first_token': possem.Obj('UnaryOp' if signed else 'Number', {'raw_text': '-' if signed else '1'}, 'first'),
+                    'last_token': possem.Obj('Number', {'raw_text': '1'}, 'last')}
+        if kind in ('N+', 'N-'):
+            return possem.Obj('NumberExpr', {'raw_number_add_expr': mk_add(kind == 'N-'), **ends(kind == 'N-')}, f'v{i}:{kind}')
+        if kind in ('A+', 'A-'):
+            num = possem.Obj('NumberExpr', {'raw_number_add_expr': mk_add(kind == 'A-'), **ends(kind == 'A-')}, f'v{i}:number of {kind}')
+            return possem.Obj('Amount', {'raw_number': num}, f'v{i}:{kind}')
+        return possem.Obj('EscapedString', {}, f'v{i}:S')
+
+    cases = 0
+    kinds = ['S', 'N+', 'N-', 'A+', 'A-']
+    for k in range(0, 4):
+        for seq in itertools.product(kinds, repeat=k):
+            vals = [mk(kd, i) for i, kd in enumerate(seq)]
+            it = Interp()
+            cases += 1
+            try:
+                out = it.call_function(f, [list(vals)], {})
+            except possem.Raised as ex:
+                return f'values {list(seq)}: raises {ex}', cases
+            if not isinstance(out, list) or [id(x) for x in out] != [id(x) for x in vals]:
+                return f'values {list(seq)}: does not yield every value exactly once, in order', cases
+            want = []
+            for i, kd in enumerate(seq):
+                if i and seq[i - 1] in ('N+', 'N-') and kd in ('N-', 'A-'):
+                    want.append(vals[i] if kd == 'N-' else vals[i].f['raw_number'])
+            if [id(x) for x in it.wrapped] != [id(x) for x in want]:
+                got = [getattr(x, 'label', x) for x in it.wrapped]
+                return (f'values {list(seq)} (S string, N number expression, A amount; - = its number starts with a sign): wraps {got}, but exactly the signed '
+                        f'numbers that directly follow a number expression must be parenthesised ({[x.label for x in want]}) -- a sign after a number '
+                        f'expression is lexed as a binary operator and the two values fuse'), cases
+    return '', cases
 
 
 def run(ctx: RuleContext, p: Program) -> None:
@@ -122,6 +196,9 @@ def run(ctx: RuleContext, p: Program) -> None:
     from . import bcline
     ctx.try_rule(bcline.rule_bc_line, p, 'BC-LINE')
     ctx.try_rule(rule_fv_path, p, 'FV-PATH')
+    ctx.try_rule(grammar_rules.rule_gram_opt, p, tcs, 'GRAM-OPT')
+    from . import round4
+    ctx.try_rule(round4.rule_late_bind, p, 'LATE-BIND')
     from . import c12
     ctx.try_rule(c12.rule_str_boundary, p, c12.grammar(p), 'STR-BOUNDARY', 7 if ctx.tier == 'quick' else 9)
     ctx.try_rule(c12.rule_fmt_lang, p, c12.grammar(p), 'FMT-LANG')
